@@ -799,6 +799,19 @@ impl VisitMut for OptMatch {
                     *e = syn::parse_quote!(match #recv { Some(#v) => #app, None => #d });
                     self.n += 1;
                 }
+            } else if name == "map_or_else" && m.args.len() == 2 {
+                // `o.map_or_else(|| D, F)` -> `match o { Some(v) => F(v), None => D }`
+                if let syn::Expr::Closure(dc) = &m.args[0] {
+                    let mut hr = HasReturn(false);
+                    syn::visit::Visit::visit_expr(&mut hr, &dc.body);
+                    if dc.inputs.is_empty() && dc.asyncness.is_none() && !hr.0 {
+                        if let Some(app) = opt_apply(&m.args[1], &v) {
+                            let d = &dc.body;
+                            *e = syn::parse_quote!(match #recv { Some(#v) => #app, None => #d });
+                            self.n += 1;
+                        }
+                    }
+                }
             } else if name == "is_some_and" && m.args.len() == 1 {
                 if let Some(app) = opt_apply(&m.args[0], &v) {
                     *e = syn::parse_quote!(match #recv { Some(#v) => #app, None => false });
